@@ -7,8 +7,8 @@
 (*       p2p/quic.go Send / receiveWithLimit (framing).                    *)
 (*                                                                         *)
 (* A queued transaction is a record [p, s, b]: p = length of the unsigned  *)
-(* payload (what Validate stores as ValidatedSize), s = length of the      *)
-(* signed envelope (what a bundle carries, capped at TXMAX by the codec),  *)
+(* payload, s = length of the signed envelope (what the batcher accounts   *)
+(* and what a bundle carries, capped at 4 MiB by the codec),               *)
 (* b = batchable type.                                                     *)
 (***************************************************************************)
 EXTENDS Naturals, Sequences, FiniteSets, TLC
@@ -16,12 +16,13 @@ EXTENDS Naturals, Sequences, FiniteSets, TLC
 CONSTANTS
     MAX,          \* p2p.TransportMessageMaxSize
     COUNTMAX,     \* common.SnapshotTransactionsMaximum
-    Accounting,   \* "payload": batchSize += ValidatedSize() (the code) ; "signed": += len(Marshal())
+    Accounting,   \* "signed": batchSize += len(tx.Marshal()) (the code) ; "payload": += ValidatedSize(), the
+                  \* accounting before the repair 3287b3f, kept as a non-vacuity witness
     Ov            \* fixed overheads in bytes [tx, payload, bundle, challenge, relay] (all 0 in the scaled model)
 
 Accounted(x) == IF Accounting = "signed" THEN x.s ELSE x.p
 
-\* batchSize += tx.ValidatedSize(); if tx.IsSnapshotBatchable() && batchSize < MAX*2/3 { batch += tx }
+\* batchSize += len(tx.Marshal()); if tx.IsSnapshotBatchable() && batchSize < MAX*2/3 { batch += tx }
 \* (the running sum counts every admissible transaction of the retrieval, batched or not)
 Threshold == (MAX * 2) \div 3
 RECURSIVE BatchFrom(_, _, _, _)
